@@ -76,7 +76,7 @@ def run(ctx):
     f = ctx.need_fn("E6.sign", "BlsSignatureCore::core_sign")
     if f is not None:
         ev = evaluate(f)
-        oks = [ev.exit_state[b].get(0) for b in R.ok_blocks(f)]
+        oks = [R.ok_value(ev.fn, ev, b) for b in R.ok_blocks(f)]
         good = False
         for v in oks:
             if v is None:
